@@ -241,6 +241,7 @@ class MacroEngine(c01.CallEngine):
            and len(helper_runs) != want_runs:
           fails.append(('macro-reference-not-reevaluated', '%d uses of macros bound to evaluated references, helper ran %d times' %
                         (want_runs, len(helper_runs))))
+    fails = m.readback_fails() + fails
     return {'obs': obs, 'fails': fails[:3], 'nontrivial': nontrivial, 'tags': tags}
 
 
